@@ -269,3 +269,28 @@ def r_sharedbase(root):
                 out.append(Finding(pr, "C16.j", rel, qualname(fn), " ".join(ast.unparse(n).split())[:90], "%s %s: the base-type expressions are module-level objects shared by every meta-model of the process - a change made while one meta-model is built (its case handling, its pattern) is seen by all meta-models built before and after" % (qualname(fn), what), witness="metamodel_from_str(g, ignore_case=True) and then metamodel_from_str(g) in the same process: BOOL of the second one"))
     for pr in ("C16", "C20", "C04"): ob(pr, "C16.j", "textx/", "package", "no function writes to a shared base-type expression (%d files)" % inst, not out)
     return max(inst, 1), out
+
+def r_parseroverrides(root):
+    """C19.f  arpeggio's Parser owns the packrat caches, the error bookkeeping (_nm_raise) and the position arithmetic
+    (pos_to_linecol, context): a method of TextXModelParser with the name of a method of arpeggio.Parser / DebugPrinter
+    (read from arpeggio's source, not imported) extends it - it calls super().<same name>(...) - and does not replace it.
+    Today only __init__ is such a method."""
+    import ast, importlib.util
+    out = []; inst = 0
+    spec = importlib.util.find_spec("arpeggio")
+    if spec is None or not spec.origin: raise AnalysisError("arpeggio source not found")
+    at = ast.parse(open(spec.origin, encoding="utf-8").read())
+    base = {f.name for c in at.body if isinstance(c, ast.ClassDef) and c.name in ("Parser", "DebugPrinter") for f in c.body if isinstance(f, ast.FunctionDef)}
+    if not {"_clear_caches", "_nm_raise", "pos_to_linecol", "parse"} <= base: raise AnalysisError("arpeggio.Parser: expected methods not found (%s)" % sorted(base))
+    M_ = "textx/model.py"; t = load(root, M_)
+    cls = next((c for c in ast.walk(t) if isinstance(c, ast.ClassDef) and c.name == "TextXModelParser"), None)
+    if cls is None: raise AnalysisError("TextXModelParser not found")
+    over = [f for f in cls.body if isinstance(f, ast.FunctionDef) and f.name in base]
+    if not any(f.name == "__init__" for f in over): raise AnalysisError("TextXModelParser.__init__ not found")
+    for f in over:
+        inst += 1
+        sup = any(isinstance(x, ast.Call) and isinstance(x.func, ast.Attribute) and x.func.attr == f.name and ((isinstance(x.func.value, ast.Call) and getattr(x.func.value.func, "id", "") == "super") or (isinstance(x.func.value, ast.Name) and x.func.value.id == "Parser")) for x in ast.walk(f))
+        for pr in ("C19", "C06"): ob(pr, "C19.f", M_, "TextXModelParser." + f.name, "extends arpeggio's Parser.%s (calls the base method)" % f.name, sup)
+        if not sup:
+            for pr in ("C19", "C06"): out.append(Finding(pr, "C19.f", M_, "TextXModelParser." + f.name, "def %s(...)" % f.name, "TextXModelParser replaces arpeggio's Parser.%s without calling it: the packrat caches, the error bookkeeping and the position arithmetic belong to arpeggio - a replacement that forgets part of it (a cache that is not reset between two parses, a position computed differently) changes parse results with memoization on / the locations reported" % f.name, witness="memoization=True, two models parsed one after the other with the same meta-model"))
+    return max(inst, 1), out
